@@ -184,12 +184,12 @@ def draw_T(ch, label, lo, hi, specials=()):
 #   VDI_TABULAR               thermo integrates the interpolated table with scipy.quad at its default
 #                             epsrel=1.49e-8 from the transition temperature, and two such integrals are differenced
 #   ZABRANSKY_QUASIPOLYNOMIAL chemicals' integral-over-T uses fluids.numerics.polylog2, a numerical approximation
-#                             of Li2(T/Tc); deviates from quadrature by up to 4e-6 relative (2e-5 on the derivative)
+#                             of Li2(T/Tc); deviates from quadrature by up to 6e-5 relative (200000-case thorough run)
 DT_RTOL = 1e-7
 DERIV_RTOL = 1e-5
-DERIV_RTOL_M = {'VDI_TABULAR': 2e-4}    # quad noise 1.49e-8*|integral| divided by the stencil width
-H_RTOL = {'VDI_TABULAR': 1e-5}
-S_RTOL = {'VDI_TABULAR': 1e-5, 'ZABRANSKY_QUASIPOLYNOMIAL': 4e-4}
+DERIV_RTOL_M = {'VDI_TABULAR': 1e-3}    # quad noise 1.49e-8*|integral| divided by the stencil width
+H_RTOL = {'VDI_TABULAR': 5e-5}
+S_RTOL = {'VDI_TABULAR': 5e-5, 'ZABRANSKY_QUASIPOLYNOMIAL': 1e-3}
 DB_CLAUSES = ('ref', 'dT', 'dT', 'deriv', 'deriv', 'dP', 'jump_vap', 'jump_fus')
 
 
@@ -693,7 +693,7 @@ def prop_mixH(ch, ctx):
     Hi = pure_values(ctx, 'mix.pure.H', H_of, chems, ph, T, P)
     if excess:
         Hxi = pure_values(ctx, 'mix.pure.H_excess', Hx_of, chems, ph, T, P)
-        ctx.metric_max('mix:Hx/H', float(np.abs(Hxi).max() / (np.abs(Hi).max() + 1e-300)))
+        if np.abs(Hi).max() > 1.0: ctx.metric_max('mix:Hx/H', float(np.abs(Hxi).max() / np.abs(Hi).max()))
         if np.abs(Hxi).max() > 1e-3 * np.abs(Hi).max(): ctx.cell('mix:excess>0.1%')
         Hi = Hi + Hxi
     Ci = pure_values(ctx, 'mix.pure.Cn', lambda c, ph, T, P: Cn_of(c, ph, T), chems, ph, T, P)
